@@ -200,6 +200,9 @@ fn check_case(c: &Case, deviation_bound: Option<usize>, reference: &Mutex<Vec<Op
         }
         let input = Input { map_order: Some(map_order.clone()), ..base };
         let input_json = json!({"repo": c.repo, "map_order": c.map_order, "walk_order": c.walk_order, "diff_order": c.diff_order});
+        // R4 (five scripted and two AI blocks) has more schedules than any budget: its schedules
+        // are bounded by deviations in the thorough tier as well (reported as a cap).
+        let deviation_bound = if repo.name.starts_with("R4") { Some(deviation_bound.unwrap_or(5)) } else { deviation_bound };
         let stats = e2::explore(&input, deviation_bound, 50_000, |outcome, trace| {
             sink.exec();
             // The AI endpoint answers by request content, so recorded requests are only drained.
@@ -364,6 +367,9 @@ pub fn run(cfg: &Cfg, sink: &Arc<Sink>) -> Report {
         false,
     ));
     report.extra.insert("schedules_executed".into(), json!(schedules.load(Ordering::Relaxed)));
+    if thorough {
+        report.cap("thorough: repository R4 (five scripted and two AI blocks) is explored under every schedule with ≤5 deviations from the default order, all other repositories under every schedule");
+    }
     if !thorough {
         report.cap("quick: 3 of the file-discovery orders per repository (identity, reverse, a middle permutation) and schedules with ≤3 deviations; thorough: all discovery orders and all schedules");
     }
